@@ -329,6 +329,18 @@ func Deps(v ssa.Value) map[string]bool {
 			visit(y.X, d+1)
 			visit(y.Low, d+1)
 			visit(y.High, d+1)
+			// elements stored through this slice value
+			if y.Referrers() != nil {
+				for _, ref := range *y.Referrers() {
+					if ia, ok := ref.(*ssa.IndexAddr); ok {
+						for _, r2 := range *ia.Referrers() {
+							if s2, ok := r2.(*ssa.Store); ok && s2.Addr == ia {
+								visit(s2.Val, d+1)
+							}
+						}
+					}
+				}
+			}
 		case *ssa.Convert:
 			visit(y.X, d+1)
 		case *ssa.ChangeType:
@@ -341,6 +353,18 @@ func Deps(v ssa.Value) map[string]bool {
 			visit(y.X, d+1)
 		case *ssa.MakeSlice:
 			visit(y.Len, d+1)
+			// what was stored into the fresh slice
+			if y.Referrers() != nil {
+				for _, ref := range *y.Referrers() {
+					if ia, ok := ref.(*ssa.IndexAddr); ok {
+						for _, r2 := range *ia.Referrers() {
+							if s2, ok := r2.(*ssa.Store); ok && s2.Addr == ia {
+								visit(s2.Val, d+1)
+							}
+						}
+					}
+				}
+			}
 		case *ssa.Alloc:
 			if y.Referrers() != nil {
 				for _, ref := range *y.Referrers() {
